@@ -6,6 +6,7 @@
     Codec    — per-field round trips (raw, terminated, counted, bound, LEB128)
     Bits     — bit-field storage units
     Pack     — arrays, typedef chains, the instance namespace, assembling parts and masks
-    RoundTrip — the mutual induction over definitions
+    RoundTrip — the mutual induction over definitions (pack ∘ unpack)
+    Ref      — unpack of a fixed-size definition = reference decoding at the ABI offsets
 -/
-import Amoco.Proofs.Struct.RoundTrip
+import Amoco.Proofs.Struct.Ref
